@@ -8,6 +8,7 @@ STABLE=$(python3 -c "import json;print('|'.join(t.split('::')[0] for t in json.l
 {
 echo "== confirm $P/$V  $(date -u)"
 git -C $WT checkout -q -- . ; git -C $WT apply $OUT/patch.diff || { echo "RESULT: patch does not apply"; exit 1; }
+[ -d $WT/_bomp ] && ninja -C $WT/_bomp -j8 >/dev/null 2>&1
 ninja -C $WT/_b -j8 >/dev/null 2>&1 || { echo "RESULT: does not compile"; git -C $WT checkout -q -- .; exit 1; }
 echo "compiled with patch"
 ctest --test-dir $WT/_b -j8 --timeout 900 2>&1 | grep -E "tests passed|Failed|Passed" > $OUT/ctest_with_patch.txt
@@ -15,10 +16,18 @@ fails=$(ctest --test-dir $WT/_b -N >/dev/null; grep -E "\*\*\*Failed|Subprocess 
 grep "tests passed" $OUT/ctest_with_patch.txt
 echo "stable tests failing with patch: $fails"
 B=$(ls $OUT/build_demo.sh /tmp/seedout_$P/build_demo.sh 2>/dev/null | head -1)
-build_demo() { if [ -f $OUT/demo.sh ]; then return 0; fi; sh $B $OUT/demo.cxx $OUT/demo_bin >/dev/null 2>&1; }
-run_demo() { if [ -f $OUT/demo.sh ]; then sh $OUT/demo.sh >/dev/null 2>&1; else (cd $OUT && ./demo_bin >/dev/null 2>&1); fi; echo $?; }
+build_demo() {
+  [ -f $OUT/demo.sh ] && return 0
+  rm -f $OUT/demo_bin $OUT/demo
+  if grep -q "A|B" $B 2>/dev/null; then (cd /tmp/seedout_$P && sh $B $V >/dev/null 2>&1); else sh $B $OUT/demo.cxx $OUT/demo_bin >/dev/null 2>&1; fi
+}
+run_demo() {
+  if [ -f $OUT/demo.sh ]; then sh $OUT/demo.sh >/dev/null 2>&1; echo $?; return; fi
+  exe=$OUT/demo_bin; [ -x $exe ] || exe=$OUT/demo
+  (cd $OUT && timeout 1200 $exe >/dev/null 2>&1); echo $?
+}
 build_demo; rc_with=$(run_demo); echo "demo with patch: exit $rc_with"
-git -C $WT checkout -q -- . ; ninja -C $WT/_b -j8 >/dev/null 2>&1
+git -C $WT checkout -q -- . ; ninja -C $WT/_b -j8 >/dev/null 2>&1; [ -d $WT/_bomp ] && ninja -C $WT/_bomp -j8 >/dev/null 2>&1
 build_demo; rc_without=$(run_demo); echo "demo without patch: exit $rc_without"
 if [ "$fails" = "0" ] && [ "$rc_with" != "0" ] && [ "$rc_without" = "0" ]; then echo "RESULT: CONFIRMED"; else echo "RESULT: NOT CONFIRMED"; fi
 } > $LOG 2>&1
